@@ -3,6 +3,7 @@
 import Driver.Proto
 import Driver.RunH
 import Lace.Model.Cli
+import Lace.Model.CliAsm
 open Lace Lace.Driver Lace.Cli
 
 namespace Lace.Driver
@@ -49,6 +50,52 @@ def handleY06 (toks : List String) : String :=
     | some so, some mi, some fuel, some name, some inp, some (orig, ws) =>
       "M " ++ showProc (runAssembled (so != 0) (mi != 0) fuel name orig ws inp)
     | _, _, _, _, _, _ => "bad-request"
+  | _ => "bad-request"
+
+end Lace.Driver
+
+namespace Lace.Driver
+open Lace.Cli
+
+/-- `S07 flag src` → exit statuses of `lace check`, `lace compile`, and whether `lace run` starts -/
+def handleS07 (toks : List String) : String :=
+  match toks with
+  | [so, src] =>
+    match parseHex so, parseText src with
+    | some so, some src =>
+      match parsedOf (so != 0) src with
+      | none => "M check=panic compile=panic run=panic"
+      | some p =>
+        let line := "check=" ++ toString (checkStatus p) ++ " compile=" ++ toString (compile p (.file none)).1 ++
+          " run=" ++ (if runAssembles p then "ok" else "fail")
+        "M " ++ line
+    | _, _ => "bad-request"
+  | _ => "bad-request"
+
+def showDest : Dest → String
+  | .file none => "absent"
+  | .file (some b) => "file:" ++ bytesHex b
+  | .devFull => "devfull"
+  | .uncreatable => "nodir"
+
+/-- `S08 flag src dest` with dest ∈ `absent | pre:<hex> | devfull | nodir` -/
+def handleS08 (toks : List String) : String :=
+  match toks with
+  | [so, src, dest] =>
+    let d : Option Dest :=
+      if dest == "absent" then some (.file none)
+      else if dest == "devfull" then some .devFull
+      else if dest == "nodir" then some .uncreatable
+      else if dest.startsWith "pre:" then (parseBytes (dest.drop 4).toString).map (fun b => Dest.file (some b))
+      else none
+    match parseHex so, parseText src, d with
+    | some so, some src, some d =>
+      match parsedOf (so != 0) src with
+      | none => "M st=panic"
+      | some p =>
+        let r := compile p d
+        "M st=" ++ toString r.1 ++ " dest=" ++ showDest r.2
+    | _, _, _ => "bad-request"
   | _ => "bad-request"
 
 end Lace.Driver
